@@ -200,3 +200,109 @@ def condensed_index(ctx, obs, prefixes, in_scope, rule='CONDENSED') -> int:
             else:
                 obs.unk(rule, q, con, f'order of `{i}`, `{j}` not established ({si}, {sj})', where(prog, f, e))
     return n
+
+
+# ---------------------------------------------------------------------------------------------------- HALF-FILLED
+_ALLOC = {'zeros', 'empty', 'full', 'ones', 'zeros_like', 'empty_like', 'full_like'}
+_SORTED_MAKERS = {'sort', 'arange', 'unique', 'nonzero', 'flatnonzero', 'where', 'argwhere', 'range', 'sorted', 'cumsum'}
+_UNSORTED_MAKERS = {'argsort', 'permutation', 'randint', 'choice', 'shuffle', 'index', 'lexsort', 'integers'}
+
+
+def half_filled_lookup(ctx, obs, prefixes, in_scope, rule='HALF-FILLED') -> int:
+    """A look-up matrix that is written on ONE triangle only (`M[np.triu_indices(n, 1)] = np.arange(..)`: the position of pair (i, j)
+    in the vector form) answers for ordered pairs i < j.  Reading it with arbitrary index arrays - `M[np.ix_(p, p)]`, `M[a][:, b]`,
+    `M[a, b]` - reaches the triangle that was never written whenever the indices are not ascending: the read returns the fill value
+    (position 0) instead of the pair's position.  Ordered index (np.sort / np.arange / np.unique / np.nonzero ...) -> ok; an index that
+    is a parameter, a permutation, an argsort or built with list.index -> violation; otherwise undecided.  A matrix that is
+    symmetrised after the fill (`M + M.T`, `M.T[..] = ..`, a second fill of the other triangle) is complete and not restricted."""
+    prog = ctx.prog
+    n = 0
+    for q, f in sorted(prog.functions.items()):
+        if not in_scope(q, prefixes):
+            continue
+        local = {}
+        for s in ast.walk(f.node):
+            if isinstance(s, ast.Assign) and len(s.targets) == 1 and isinstance(s.targets[0], ast.Name):
+                local.setdefault(s.targets[0].id, []).append(s.value)
+
+        def leaf(fn):
+            return fn.attr if isinstance(fn, ast.Attribute) else (fn.id if isinstance(fn, ast.Name) else '')
+
+        def is_triu(e, depth=0):
+            if isinstance(e, ast.Call) and leaf(e.func) in ('triu_indices', 'triu_indices_from'):
+                return True
+            if isinstance(e, ast.Name) and depth < 3 and len(local.get(e.id, [])) == 1:
+                return is_triu(local[e.id][0], depth + 1)
+            return False
+        cands = {v for v, vals in local.items() if len(vals) == 1 and isinstance(vals[0], ast.Call) and leaf(vals[0].func) in _ALLOC}
+        for m in sorted(cands):
+            stores = [s for s in ast.walk(f.node) if isinstance(s, (ast.Assign, ast.AugAssign))
+                      for t in (s.targets if isinstance(s, ast.Assign) else [s.target])
+                      if isinstance(t, ast.Subscript) and isinstance(t.value, ast.Name) and t.value.id == m]
+            if not stores:
+                continue
+            tg = [t for s in stores for t in (s.targets if isinstance(s, ast.Assign) else [s.target]) if isinstance(t, ast.Subscript)]
+            if not all(is_triu(t.slice) for t in tg):
+                continue
+            # symmetrised / completed afterwards?
+            complete = False
+            for x in ast.walk(f.node):
+                if isinstance(x, ast.Attribute) and x.attr == 'T' and isinstance(x.value, ast.Name) and x.value.id == m:
+                    complete = True
+                if isinstance(x, ast.Call) and leaf(x.func) in ('tril_indices', 'tril_indices_from', 'transpose', 'maximum', 'squareform') \
+                        and any(isinstance(y, ast.Name) and y.id == m for y in ast.walk(x)):
+                    complete = True
+            if complete:
+                continue
+            reads = [x for x in ast.walk(f.node) if isinstance(x, ast.Subscript) and isinstance(x.ctx, ast.Load)
+                     and isinstance(x.value, ast.Name) and x.value.id == m and not is_triu(x.slice)]
+            for rd in reads:
+                idx = []
+                sl = rd.slice
+                if isinstance(sl, ast.Call) and leaf(sl.func) == 'ix_':
+                    idx = list(sl.args)
+                elif isinstance(sl, ast.Tuple):
+                    idx = [e for e in sl.elts if not isinstance(e, ast.Slice)]
+                else:
+                    idx = [sl]
+                if not idx or all(isinstance(e, ast.Constant) for e in idx):
+                    continue
+                n += 1
+
+                def order(e, depth=0):
+                    if isinstance(e, ast.Call):
+                        lf = leaf(e.func)
+                        if lf in _SORTED_MAKERS:
+                            return 'sorted'
+                        if lf in _UNSORTED_MAKERS:
+                            return 'unsorted'
+                        if lf in ('array', 'asarray', 'list', 'tuple') and e.args:
+                            return order(e.args[0], depth + 1)
+                        return 'unknown'
+                    if isinstance(e, (ast.ListComp, ast.GeneratorExp)):
+                        return order(e.elt, depth + 1)
+                    if isinstance(e, ast.Subscript):
+                        return order(e.value, depth + 1) if isinstance(e.slice, ast.Constant) else 'unknown'
+                    if isinstance(e, ast.Name):
+                        if e.id in f.params:
+                            return 'unsorted'          # whatever the caller passes
+                        vals = local.get(e.id, [])
+                        if depth < 4 and vals:
+                            os_ = {order(v, depth + 1) for v in vals}
+                            if os_ == {'sorted'}:
+                                return 'sorted'
+                            if 'unsorted' in os_:
+                                return 'unsorted'
+                        return 'unknown'
+                    return 'unknown'
+                states = [order(e) for e in idx]
+                con = f'the look-up `{norm(rd)[:50]}` into the half-filled matrix `{m}` uses ascending indices only'
+                if all(s == 'sorted' for s in states):
+                    obs.ok(rule, q, con, '', where(prog, f, rd))
+                elif 'unsorted' in states:
+                    obs.bad(rule, q, con, f'`{m}` is written on the upper triangle only (`{norm(stores[0])[:60]}`), and `{norm(rd)[:60]}` reads it with '
+                            f'indices that are not ascending in general: for a pair in descending order the entry of the unwritten triangle '
+                            f'(the fill value) is returned', where(prog, f, rd))
+                else:
+                    obs.unk(rule, q, con, f'order of the index arrays not established ({states})', where(prog, f, rd))
+    return n
